@@ -1,10 +1,10 @@
 #!/bin/bash
 # try_mutant.sh <patch.diff> <Cnn> [tier]: apply a seeded change to /repo, run the check, undo the change.
 P=$1; ID=$2; T=${3:-quick}
-cd /repo || exit 9
+R=${VERIF_REPO:-/repo}; cd $R || exit 9
 if ! git apply --check "$P" 2>/dev/null; then echo "PATCH DOES NOT APPLY: $P"; exit 9; fi
 git apply "$P"
-trap 'git -C /repo checkout -- . ' EXIT
+trap 'git -C $R checkout -- . ' EXIT
 cd /verif && ./check $ID --tier $T > /tmp/try_$ID.out 2>&1
 rc=$?
 grep -E "VIOLATION|MACHINERY|KNOWN" /tmp/try_$ID.out | head -4
